@@ -418,6 +418,20 @@ def entry_points(sym):
     return flags
 
 
+def cache_check_guards_keyless(cache):
+    """`IndexedCache.check` begins with `if not self.keys: return False` (a cache without keys never claims coverage)."""
+    cls = _find(cache, ast.ClassDef, 'IndexedCache')
+    fn = next((n for n in cls.body if isinstance(n, ast.FunctionDef) and n.name == 'check'), None)
+    if fn is None:
+        raise Untranslatable('IndexedCache.check not found')
+    body = [b for b in fn.body if not (isinstance(b, ast.Expr) and isinstance(b.value, ast.Constant))]
+    first = body[0] if body else None
+    return bool(isinstance(first, ast.If) and isinstance(first.test, ast.UnaryOp) and isinstance(first.test.op, ast.Not)
+                and isinstance(first.test.operand, ast.Attribute) and first.test.operand.attr == 'keys'
+                and len(first.body) == 1 and isinstance(first.body[0], ast.Return)
+                and isinstance(first.body[0].value, ast.Constant) and first.body[0].value.value is False)
+
+
 def render():
     sym = _parse('symbolic.py')
     ent = _parse('entity.py')
@@ -494,6 +508,9 @@ def render():
                      ('the_resets_finally', 'theResetsInFinally'), ('an_resets_at_start', 'anResetsAtStartWhenRunning'),
                      ('reset_reaches_domains', 'resetReachesDomainSources')):
         L.append(f'def {name} : Bool := {b(fl[k_])}')
+    L.append('')
+    L.append('/-- cache_data.py: `IndexedCache.check` begins with `if not self.keys: return False`. -/')
+    L.append(f'def cacheCheckGuardsKeyless : Bool := {b(cache_check_guards_keyless(cache))}')
     L.append('')
     L.append('end Eql.Gen')
     return '\n'.join(L) + '\n'
